@@ -99,6 +99,9 @@ func RunTrace(tr *Trace, explore bool, baseDir string, opts RunOpts) (res *World
 		}
 		w.RunBlock(h, step)
 	}
+	if !w.TimedOut {
+		w.finishForks()
+	}
 	if hookWorld != nil && opts.noMeta {
 		hookWorld(w)
 	}
